@@ -91,6 +91,14 @@ def extra_shapes(extra_attrs=()):
                       [Assoc(1, 'B', ['X'], True, True, '', 'A', ['Id'], False, True, ''),
                        Assoc(2, 'B', ['X'], True, True, '', 'C', ['Id'], False, True, '')],
                       [(k, 'I1', ['Id']) for k in ('A', 'B', 'C')]))
+    # (m) the same with integer identifiers: every instance created without values carries the identifier 0, a value that is
+    #     falsy in python and yet the value a linked referential attribute must read (round 8, C02-15)
+    IDI = ('Id', 'integer')
+    out.append(Schema('m_shared_referential_int',
+                      [('A', [IDI] + x), ('C', [IDI] + x), ('B', [IDI, ('X', 'integer')] + x)],
+                      [Assoc(1, 'B', ['X'], True, True, '', 'A', ['Id'], False, True, ''),
+                       Assoc(2, 'B', ['X'], True, True, '', 'C', ['Id'], False, True, '')],
+                      [(k, 'I1', ['Id']) for k in ('A', 'B', 'C')]))
     # (k) 1:1 unconditional on both sides (C11: a rejected relate must not hide the missing partner of the other instance)
     out.append(Schema('k_1_1',
                       [('A', [ID] + x), ('B', [ID, ('A_Id', 'unique_id')] + x)],
